@@ -265,6 +265,28 @@ def run_shard(rec):
             rec.drop()
             continue
         run_ast(rec, G, list(gen.all_strings(alpha, 3)), ('zoo', ztag), styles)
+    # statement mixes: several anonymous / named ignore statements next to each other, before, between
+    # and after the rules, with classes and templates -- the layouts (newline vs ; on ONE line, blank
+    # lines, comments) then decide which statements share a line
+    W = ('re', '[ab]+', False)
+    IG = [('ignore', ('str', ' ')), ('ignore', ('str', ',')), ('ignore', ('re', '_+', False)), ('irule', 'Hash', ('re', '#', False))]
+    RULES = [('rule', 'start', None, ('star', ('alt', [('ref', 'Box'), ('call', 'Ang', [('ref', 'Word')]), ('ref', 'Word')]))),
+             ('rule', 'Word', None, W),
+             ('class', 'Box', None, [('field', 'o', ('str', '[')), ('field', 'w', ('opt', ('ref', 'Word'))), ('field', 'c', ('str', ']'))]),
+             ('rule', 'Ang', ['p'], ('seq', [('str', '<'), ('ref', 'p'), ('str', '>')]))]
+    mixes = []
+    for k in (2, 3, 4):
+        igs = IG[:k]
+        mixes.append(('ignores-first', igs + RULES))
+        mixes.append(('ignores-last', RULES + igs))
+        mixes.append(('ignores-between', RULES[:1] + igs[:1] + RULES[1:2] + igs[1:] + RULES[2:]))
+        mixes.append(('ignores-reversed', list(reversed(igs)) + RULES))
+    mix_inputs = [''.join(t) for n in range(0, 4) for t in __import__('itertools').product(['a', 'b', ' ', ',', '_', '#', '[', ']', '<a>'], repeat=n)][::3]
+    for mtag, stmts in mixes:
+        idx += 1
+        if not rec.mine(idx):
+            continue
+        run_ast(rec, dict(name=None, extends=None, stmts=stmts), mix_inputs, ('statement-mix', mtag, len(stmts)), styles)
     # bounds whose literals differ in digit count (text vs number comparison of the bounds)
     wide_inputs = ['a' * k + t for k in range(0, 14) for t in ('', 'b')]
     for m, n in [(2, 10), (9, 12), (10, 11), (0, 10), (10, None), (None, 10), (12, 12), (1, 100), (9, 10), (3, 3)]:
